@@ -81,15 +81,16 @@ func must(err error) {
 }
 
 type structMeta struct {
-	Key       string   `json:"key"` // scenario/struct
-	Pkg       string   `json:"pkg"`
-	Type      string   `json:"type"`
-	Generated bool     `json:"generated"`
-	File      string   `json:"file"`
-	Sentinels []string `json:"sentinels"`
-	OtherVars []string `json:"othervars"`
-	Problems  []string `json:"problems"`
-	Index     int      `json:"index"`
+	Key        string      `json:"key"` // scenario/struct
+	Pkg        string      `json:"pkg"`
+	Type       string      `json:"type"`
+	Generated  bool        `json:"generated"`
+	File       string      `json:"file"`
+	Sentinels  []string    `json:"sentinels"`
+	SentinelPT [][2]string `json:"sentinel_pt"`
+	OtherVars  []string    `json:"othervars"`
+	Problems   []string    `json:"problems"`
+	Index      int         `json:"index"`
 }
 
 func translate(c *decl.Corpus, dir, coqOut, metaOut string) {
@@ -121,6 +122,7 @@ func translate(c *decl.Corpus, dir, coqOut, metaOut string) {
 				} else {
 					m.Problems = f.Problems
 					m.Sentinels = f.Sentinels
+					m.SentinelPT = f.SentinelPT
 					for _, n := range f.AllVarNames {
 						isS := false
 						for _, x := range f.Sentinels {
